@@ -30,6 +30,7 @@ that class; outside it (and when no If-condition — user code `computeAllowedMe
 consults — fails: `C17_conds_witness`) the listed methods are exactly the routable ones.
 -/
 import Restful.Lemmas.Allow
+import Restful.Lemmas.StateShape
 namespace Restful
 namespace Props
 open Str
@@ -164,6 +165,12 @@ theorem C17_options_curly_partial (E : ReEnv) (tbl : Config) (hwf : Spec.wfCommo
     m ∈ ms ↔ Spec.routable E (Spec.withRouter tbl .curly) req m = true := by
   rw [C17_routable_agrees E tbl hwf hroots hclean req (hpath ▸ hp) m]
   exact C17_options_jsr_partial E (Spec.withRouter tbl .jsr) rfl path ms hc hF14 req hpath hconds m
+
+/-! The frame condition (Lemmas/StateShape.lean): the code has exactly the state this property's model
+    accounts for — no further package-level variable, struct type or field; constants as modelled. -/
+-- also: Restful.StateShape.globals_shape
+-- also: Restful.StateShape.consts_shape
+-- also: Restful.StateShape.container_shape
 
 end Props
 end Restful
